@@ -310,7 +310,8 @@ func (runInfo *runInfoStruct) runLetMapItemStmt(stmt *ast.LetMapItemStmt) {
 	if isNil(runInfo.rv) {
 		rvs = []reflect.Value{nilValue, falseValue}
 	} else {
-		rvs = []reflect.Value{runInfo.rv, trueValue}
+		// the value found is the one read before the operands of the targets run
+		rvs = []reflect.Value{detachValue(runInfo.rv), trueValue}
 	}
 	var i int
 	for i, runInfo.expr = range stmt.LHSS {
